@@ -206,6 +206,12 @@ var variants = []variant{
 	{"data-padded-empty", func(T uint32) [][]byte { return one(h2peer.RawFrame(0, fPAD, T, nil)) }},
 	{"data-exceeds-content-length", func(T uint32) [][]byte { return one(h2peer.RawFrame(0, 0, T, []byte("0123456789"))) }},
 	{"data-oversize", func(T uint32) [][]byte { return one(h2peer.RawFrame(0, 0, T, zeros(16385))) }},
+	// ---- frames on an even (server-initiated, never promised) id BELOW the highest client id: still idle (5.1.1
+	// speaks of streams the endpoint itself could have opened), so anything but PRIORITY is a connection error
+	{"data-even-id-below-highest", func(T uint32) [][]byte { return one(h2peer.RawFrame(0, 0, T-1, []byte("abc"))) }},
+	{"rst-even-id-below-highest", func(T uint32) [][]byte { return one(h2peer.RawFrame(3, 0, T-1, u32(8))) }},
+	{"window-update-even-id-below-highest", func(T uint32) [][]byte { return one(h2peer.RawFrame(8, 0, T-1, u32(100))) }},
+	{"priority-even-id-below-highest", func(T uint32) [][]byte { return one(h2peer.RawFrame(2, 0, T-1, cat(u32(0), []byte{10}))) }},
 	// ---- RST_STREAM
 	{"rst-valid", func(T uint32) [][]byte { return one(h2peer.RawFrame(3, 0, T, u32(8))) }},
 	{"rst-stream0", func(T uint32) [][]byte { return one(h2peer.RawFrame(3, 0, 0, u32(8))) }},
